@@ -73,7 +73,7 @@ Judge(e) ==
            ELSE <<Need(e.ret.r = "null" /\ unchanged, "C17", <<Fn(e), "failed">>), failed>>
       [] x.kind = "fromzinc" ->
            LET r == ZincRead(c.s.s) IN
-           IF r.ok /\ RvDecidable(r.v) /\ ~HasOptUriEsc(c.s.s)
+           IF r.ok /\ RvDecidable(r.v) /\ ~DebatableEsc(c.s.s)
            THEN <<Need(newOk, "C17", <<Fn(e), "sentence rejected", StringOf(c.s.s)>>)
                   \o (IF newOk THEN Need(Denotes(r.v, newVal), "C17", <<Fn(e), "sentence misread", StringOf(c.s.s)>>) ELSE <<>>),
                   IF newOk THEN withNew ELSE failed>>
